@@ -74,6 +74,12 @@ META = {
                         "PARTIAL: only program-order prefixes of the writer's write calls are modelled as crash states; the OS may reorder page writes after power loss",
                         "os.File.Read is assumed to fill the 3*size header buffer when the file is long enough"],
     },
+    "C17": {
+        "sections": [],
+        "rule": "every residue count 0..160 (thorough 0..300) over a 56-character printable alphabet without '>' x 7 descriptions (empty, with '>', tabs, leading/trailing blanks): Fasta.WriteTo, then the text and its CRLF conversion through the FASTA scanner; 200 random streams of 1..5 records (lengths around the multiples of 70) in LF and CRLF; 400 arbitrary byte strings over {'>',LF,CR,letters}; the corpus GenBank records (and slices of them) written as FASTA and read back. Non-trivial = residues present / any scan; distinct case lines.",
+        "assumptions": ["theorems cover LF output read back by the reader; CRLF input and GenBank-to-FASTA description are decided by correspondence + oracle",
+                        "fasta_ok: description without CR/LF, residues without '>', LF, CR (the property's own domain)"],
+    },
 }
 
 
